@@ -651,4 +651,313 @@ theorem countdown_paddingSent_fire (mi : Nat) (m : Machine) (st : State) (a : Ac
       (by show r.stateLimit - ts.length ≤ 1; omega)
     exact this
 
+/-! ### steps that leave machine `mi` alone and deliver no LimitReached to it -/
+
+/-- weight 1 on the LimitReached deliveries to machine `mi` -/
+def μLR (mi : Nat) : LogEntry → Nat
+  | .trans m ev _ => if m = mi ∧ ev = Gen.EV_LimitReached then 1 else 0
+  | _ => 0
+
+theorem μLR_transOnly (mi : Nat) : TransOnly (μLR mi) := by
+  intro e he
+  cases e with
+  | trans m ev st => exact absurd rfl (he m ev st)
+  | _ => rfl
+
+/-- LimitReached events delivered to machine `mi` according to the log -/
+def lrOf (mi : Nat) (s : Fw σ) : Nat := wsum (μLR mi) s.log
+
+theorem toNat_limitReached (ev : Event) : ev.toNat = Gen.EV_LimitReached ↔ ev = .limitReached := by
+  cases ev <;> decide
+
+theorem lr_transition (mi j : Nat) (ev : Event) (s : Fw σ) :
+    lrOf mi (transition ρ FUEL j ev s).1 ≤ lrOf mi s + (if j = mi ∧ ev = .limitReached then 1 else 0) := by
+  have := (count_main ρ (μLR_transOnly mi) 0 FUEL).1 j ev (if j = mi ∧ ev = .limitReached then 1 else 0) s
+    (fun st => by
+      simp only [μLR, toNat_limitReached]
+      split <;> simp_all)
+    (fun st => by
+      simp only [μLR]
+      have : ¬ (Event.counterZero.toNat = Gen.EV_LimitReached) := by decide
+      simp [this])
+  unfold lrOf; omega
+
+theorem lr_same {mi : Nat} {s t : Fw σ} (h : t.log = s.log) : lrOf mi t = lrOf mi s := by
+  unfold lrOf; rw [h]
+
+theorem lr_push (mi : Nat) (s : Fw σ) (e : LogEntry) (he : μLR mi e = 0) : lrOf mi (s.push e) = lrOf mi s := by
+  simp [lrOf, Fw.push, wsum_cons, he]
+
+theorem lr_decrement_other (mi j : Nat) (s : Fw σ) (hj : j ≠ mi) : lrOf mi (decrementLimit ρ j s) ≤ lrOf mi s := by
+  unfold decrementLimit
+  cases hr : s.rt[j]? with
+  | none => exact Nat.le_of_eq (lr_same (by simp))
+  | some r =>
+  cases hm : s.machines[j]? with
+  | none => exact Nat.le_of_eq (lr_same (by simp))
+  | some m =>
+  simp only []
+  generalize (if r.stateLimit > 0 then r.stateLimit - 1 else r.stateLimit) = lim
+  have h1 : lrOf mi ((s.modRt j (fun r' => { r' with stateLimit := lim })).push (.limit j lim true)) = lrOf mi s :=
+    (lr_push mi _ _ rfl).trans (lr_same (by simp))
+  generalize (s.modRt j (fun r' => { r' with stateLimit := lim })).push (.limit j lim true) = s1 at h1 ⊢
+  cases hst : m.states[r.currentState]? with
+  | none => exact Nat.le_of_eq ((lr_same (by simp)).trans h1)
+  | some st =>
+  simp only []
+  cases hact : st.action with
+  | none => exact Nat.le_of_eq h1
+  | some a =>
+    simp only []
+    split
+    · split
+      · exact Nat.le_of_eq ((lr_same (by simp)).trans h1)
+      · have := lr_transition ρ mi j .limitReached { s1 with actions := s1.actions.set j none }
+        simp only [hj, false_and, if_false, Nat.add_zero] at this
+        exact Nat.le_trans this (Nat.le_of_eq ((lr_same (t := { s1 with actions := s1.actions.set j none }) rfl).trans h1))
+    · exact Nat.le_of_eq h1
+
+theorem wsum_append (μ : LogEntry → Nat) (l l' : List LogEntry) : wsum μ (l ++ l') = wsum μ l + wsum μ l' := by
+  simp [wsum]
+
+theorem wsum_mem_le (μ : LogEntry → Nat) (l : List LogEntry) (e : LogEntry) (h : e ∈ l) : μ e ≤ wsum μ l := by
+  induction l with
+  | nil => cases h
+  | cons a l ih =>
+    rw [wsum_cons]
+    rcases List.mem_cons.mp h with h' | h'
+    · subst h'; omega
+    · have := ih h'; omega
+
+/-- a log segment over which the LimitReached count of `mi` did not grow holds no LimitReached
+    delivery to `mi` -/
+theorem noLR_of_le {mi : Nat} {s u : Fw σ} {l : List LogEntry} (hl : u.log = l ++ s.log) (hle : lrOf mi u ≤ lrOf mi s) :
+    ∀ st', LogEntry.trans mi Event.limitReached.toNat st' ∉ l := by
+  intro st' hmem
+  unfold lrOf at hle
+  rw [hl, wsum_append] at hle
+  have h0 : wsum (μLR mi) l = 0 := by omega
+  have : μLR mi (.trans mi Event.limitReached.toNat st') ≤ wsum (μLR mi) l := wsum_mem_le _ _ _ hmem
+  rw [h0] at this
+  simp [μLR] at this
+  exact this (by decide)
+
+/-- `t` agrees with `s` on everything that belongs to machine `mi` (the machine, its runtime, its
+    slot), its log extends that of `s`, and LimitReached was not delivered to `mi` in between -/
+structure Quiet (mi : Nat) (s t : Fw σ) : Prop where
+  m : t.machines[mi]? = s.machines[mi]?
+  rt : t.rt[mi]? = s.rt[mi]?
+  act : t.actions[mi]? = s.actions[mi]?
+  lr : lrOf mi t ≤ lrOf mi s
+  ext : LogExt s t
+
+theorem Quiet.refl (mi : Nat) (s : Fw σ) : Quiet mi s s := ⟨rfl, rfl, rfl, Nat.le_refl _, LogExt.refl _⟩
+
+theorem Quiet.trans {mi : Nat} {s t u : Fw σ} (h₁ : Quiet mi s t) (h₂ : Quiet mi t u) : Quiet mi s u :=
+  ⟨h₂.m.trans h₁.m, h₂.rt.trans h₁.rt, h₂.act.trans h₁.act, Nat.le_trans h₂.lr h₁.lr, h₁.ext.trans h₂.ext⟩
+
+theorem Quiet.ofSame {mi : Nat} {s t : Fw σ} (h : Same mi s t) (hlr : lrOf mi t ≤ lrOf mi s) (hext : LogExt s t) :
+    Quiet mi s t := ⟨h.m, h.rt, h.act, hlr, hext⟩
+
+theorem Quiet.sameLog {mi : Nat} {s t : Fw σ} (h : Same mi s t) (hl : t.log = s.log) : Quiet mi s t :=
+  Quiet.ofSame h (Nat.le_of_eq (lr_same hl)) (LogExt.ofEq hl)
+
+theorem Quiet.setG (mi : Nat) (s : Fw σ) (g' : Globals) : Quiet mi s { s with g := g' } :=
+  ⟨rfl, rfl, rfl, Nat.le_refl _, LogExt.refl _⟩
+
+theorem Quiet.modRt_other (mi j : Nat) (s : Fw σ) (f : Runtime → Runtime) (hj : j ≠ mi) : Quiet mi s (s.modRt j f) :=
+  ⟨by simp, Fw.modRt_rt_other s j mi f (Ne.symm hj), by simp, Nat.le_of_eq (lr_same (by simp)), LogExt.ofEq (by simp)⟩
+
+theorem quiet_transition_other (mi j : Nat) (ev : Event) (s : Fw σ) (hj : j ≠ mi) :
+    Quiet mi s (transition ρ FUEL j ev s).1 := by
+  refine Quiet.ofSame (Same.ofFrame (transition_reach ρ FUEL j ev s).frame (Ne.symm hj)) ?_ (logExt_transition ρ _ _ _ _)
+  have := lr_transition ρ mi j ev s
+  simpa [hj] using this
+
+theorem quiet_decrement_other (mi j : Nat) (s : Fw σ) (hj : j ≠ mi) : Quiet mi s (decrementLimit ρ j s) :=
+  Quiet.ofSame (Same.ofFrame (decrementLimit_reach ρ j s).frame (Ne.symm hj)) (lr_decrement_other ρ mi j s hj)
+    (logExt_decrement ρ _ _)
+
+/-- a delivery to `mi` itself in a state without a transition vector for the event -/
+theorem transition_noVec_same (mi : Nat) (ev : Event) (fuel : Nat) (s : Fw σ) (r : Runtime) (m : Machine)
+    (hr : s.rt[mi]? = some r) (hm : s.machines[mi]? = some m)
+    (hnv : ∀ st vec, m.states[r.currentState]? = some st → st.transitions[ev.toNat]? ≠ some (some vec)) :
+    Same mi s (transition ρ fuel mi ev s).1 := by
+  cases fuel with
+  | zero => rw [transition]; exact Same.withFault _ _ _
+  | succ n =>
+    rw [transition, hr, hm]
+    simp only []
+    split
+    · exact Same.push _ _ _
+    · cases hst : m.states[r.currentState]? with
+      | none => exact (Same.push _ _ _).trans (Same.withFault _ _ _)
+      | some st =>
+        simp only []
+        cases htr : st.transitions[ev.toNat]? with
+        | none => exact (Same.push _ _ _).trans (Same.withFault _ _ _)
+        | some ov =>
+          cases ov with
+          | none => exact Same.push _ _ _
+          | some vec => exact absurd htr (hnv st vec hst)
+
+theorem quiet_transition_noVec (mi : Nat) (ev : Event) (hev : ev ≠ .limitReached) (s : Fw σ) (r : Runtime) (m : Machine)
+    (hr : s.rt[mi]? = some r) (hm : s.machines[mi]? = some m)
+    (hnv : ∀ st vec, m.states[r.currentState]? = some st → st.transitions[ev.toNat]? ≠ some (some vec)) :
+    Quiet mi s (transition ρ FUEL mi ev s).1 := by
+  refine Quiet.ofSame (transition_noVec_same ρ mi ev FUEL s r m hr hm hnv) ?_ (logExt_transition ρ _ _ _ _)
+  have := lr_transition ρ mi mi ev s
+  simpa [hev] using this
+
+/-- machine `mi` is `m` and is in state `cur` -/
+def InState (mi : Nat) (m : Machine) (cur : Nat) (s : Fw σ) : Prop :=
+  s.machines[mi]? = some m ∧ ∃ r, s.rt[mi]? = some r ∧ r.currentState = cur
+
+theorem InState.same {mi : Nat} {m : Machine} {cur : Nat} {s t : Fw σ} (h : InState mi m cur s) (hs : Quiet mi s t) :
+    InState mi m cur t := by
+  obtain ⟨h1, r, h2, h3⟩ := h
+  exact ⟨by rw [hs.m]; exact h1, r, by rw [hs.rt]; exact h2, h3⟩
+
+theorem fold_quiet {mi : Nat} {m : Machine} {cur : Nat} (F : Fw σ → Nat → Fw σ)
+    (hF : ∀ s j, InState mi m cur s → Quiet mi s (F s j)) (l : List Nat) (s : Fw σ) (hs : InState mi m cur s) :
+    Quiet mi s (l.foldl F s) := by
+  induction l generalizing s with
+  | nil => exact Quiet.refl _ _
+  | cons j t ih =>
+    have h1 := hF s j hs
+    exact h1.trans (ih _ (hs.same h1))
+
+/-- the signal round leaves a machine alone whose current state has no transition on Signal -/
+theorem signalRound_quiet (mi : Nat) (m : Machine) (cur : Nat)
+    (hns : ∀ st vec, m.states[cur]? = some st → st.transitions[Event.signal.toNat]? ≠ some (some vec))
+    (s : Fw σ) (hs : InState mi m cur s) : Quiet mi s (signalRound ρ s) := by
+  have hT : ∀ (a : Fw σ) (j : Nat), InState mi m cur a → Quiet mi a (transition ρ FUEL j .signal a).1 := by
+    intro a j ha
+    by_cases hj : j = mi
+    · subst hj
+      obtain ⟨h1, r, h2, h3⟩ := ha
+      exact quiet_transition_noVec ρ j .signal (by decide) a r m h2 h1 (by rw [h3]; exact hns)
+    · exact quiet_transition_other ρ mi j .signal a hj
+  have hSig : ∀ (a : Fw σ) (p : Option SignalTarget), Quiet mi a { a with signalPending := p } :=
+    fun a p => Quiet.sameLog (Same.signal _ _ _) rfl
+  have hFold : ∀ (excluded : Option Nat) (n : Nat) (a : Fw σ), InState mi m cur a →
+      Quiet mi a ((List.range n).foldl (fun s j =>
+        if (excluded == some j) = true then s else (transition ρ FUEL j .signal s).1) a) := by
+    intro excluded n a ha
+    refine fold_quiet _ (fun b j hb => ?_) _ a ha
+    split
+    · exact Quiet.refl _ _
+    · exact hT b j hb
+  unfold signalRound
+  cases hsig : s.signalPending with
+  | none => exact Quiet.refl _ _
+  | some sig =>
+    have h1 : Quiet mi s { s with signalPending := none } := hSig s none
+    have hs1 : InState mi m cur ({ s with signalPending := none } : Fw σ) := hs.same h1
+    cases sig with
+    | all =>
+      simp only []
+      have h3 := h1.trans (hFold none s.rt.length { s with signalPending := none } hs1)
+      generalize ((List.range s.rt.length).foldl (fun s j =>
+          if ((none : Option Nat) == some j) = true then s else (transition ρ FUEL j .signal s).1)
+          ({ s with signalPending := none } : Fw σ)) = s2 at h3 ⊢
+      cases hs2 : s2.signalPending with
+      | none => exact h3
+      | some _ => exact h3.trans (hSig s2 none)
+    | allExcept x =>
+      simp only []
+      have h3 := h1.trans (hFold (some x) s.rt.length { s with signalPending := none } hs1)
+      generalize ((List.range s.rt.length).foldl (fun s j =>
+          if (some x == some j) = true then s else (transition ρ FUEL j .signal s).1)
+          ({ s with signalPending := none } : Fw σ)) = s2 at h3 ⊢
+      cases hs2 : s2.signalPending with
+      | none => exact h3
+      | some _ =>
+        simp only []
+        have h4 := h3.trans (hSig s2 none)
+        exact h4.trans (hT _ x (hs.same h4))
+
+/-! ### completions reported for other machines -/
+
+theorem quiet_transDec_other (mi j : Nat) (ev : Event) (s : Fw σ) (hj : j ≠ mi) (c : Fw σ × Bool → Bool) :
+    Quiet mi s (if c (transition ρ FUEL j ev s) = true then decrementLimit ρ j (transition ρ FUEL j ev s).1
+                else (transition ρ FUEL j ev s).1) := by
+  split
+  · exact (quiet_transition_other ρ mi j ev s hj).trans (quiet_decrement_other ρ mi j _ hj)
+  · exact quiet_transition_other ρ mi j ev s hj
+
+/-- the three completion events, reported for machine `j` -/
+inductive CompletionFor (j : Nat) : TEvent → Prop
+  | paddingSent : CompletionFor j (.paddingSent j)
+  | blockingBegin : CompletionFor j (.blockingBegin j)
+  | timerBegin : CompletionFor j (.timerBegin j)
+
+/-- a completion reported for another machine `j ≠ mi` (or for an unknown id) leaves machine `mi`
+    alone — provided, for BlockingBegin (which is delivered to every machine), that `mi`'s current
+    state has no transition on BlockingBegin -/
+theorem processEvent_other_quiet (mi j : Nat) (hj : j ≠ mi) (m : Machine) (cur : Nat) (E : TEvent)
+    (hE : CompletionFor j E)
+    (hbb : E = .blockingBegin j →
+      ∀ st vec, m.states[cur]? = some st → st.transitions[Event.blockingBegin.toNat]? ≠ some (some vec))
+    (s : Fw σ) (hs : InState mi m cur s) : Quiet mi s (processEvent ρ E s) := by
+  cases hE with
+  | paddingSent =>
+    simp only [processEvent]
+    refine (Quiet.setG mi s { s.g with paddingSent := s.g.paddingSent + 1 }).trans ?_
+    split
+    · exact Quiet.refl _ _
+    · exact (Quiet.modRt_other mi j _ _ hj).trans
+        (quiet_transDec_other ρ mi j .paddingSent _ hj (fun p => !p.2 && notEnded p.1 j))
+  | timerBegin =>
+    simp only [processEvent]
+    split
+    · exact Quiet.refl _ _
+    · exact quiet_transDec_other ρ mi j .timerBegin _ hj (fun p => !p.2 && notEnded p.1 j)
+  | blockingBegin =>
+    simp only [processEvent]
+    have h1 : Quiet mi s (if !s.g.blockingActive then
+        { s with g := { s.g with blockingActive := true, blockingStarted := s.g.now } } else s) := by
+      split
+      · exact Quiet.setG mi s _
+      · exact Quiet.refl _ _
+    refine h1.trans (fold_quiet _ (fun a k ha => ?_) _ _ (hs.same h1))
+    by_cases hk : k = mi
+    · subst hk
+      obtain ⟨ha1, r, ha2, ha3⟩ := ha
+      have hb : (k == j) = false := by simpa using (Ne.symm hj)
+      have hq := quiet_transition_noVec ρ k .blockingBegin (by decide) a r m ha2 ha1 (by rw [ha3]; exact hbb rfl)
+      show Quiet k a (if (fun p : Fw σ × Bool => !p.2 && notEnded p.1 k && k == j) (transition ρ FUEL k .blockingBegin a) = true
+        then decrementLimit ρ k (transition ρ FUEL k .blockingBegin a).1 else (transition ρ FUEL k .blockingBegin a).1)
+      simp only [hb, Bool.and_false, Bool.false_eq_true, if_false]
+      exact hq
+    · exact quiet_transDec_other ρ mi k .blockingBegin a hk (fun p => !p.2 && notEnded p.1 k && k == j)
+
+/-- **A completion reported for another machine never consumes the limit**: in a single-event call
+    that reports a completion for `j ≠ mi`, machine `mi` keeps its state, its limit, its counters
+    and its accounting (only the per-call CounterZero flags are reset by the start of the call),
+    its slot is empty and LimitReached is not delivered to it — provided its current state has no
+    transition on Signal (a neighbour may signal) and, for BlockingBegin, none on BlockingBegin
+    (that event is delivered to every machine). Nothing is assumed about the pending-signal slot,
+    the other machines or the well-formedness of the framework. -/
+theorem other_machine_completion (mi j : Nat) (hj : j ≠ mi) (E : TEvent) (hE : CompletionFor j E)
+    (t : Int) (s : Fw σ) (r : Runtime) (m : Machine)
+    (hr : s.rt[mi]? = some r) (hm : s.machines[mi]? = some m)
+    (hns : ∀ st vec, m.states[r.currentState]? = some st → st.transitions[Event.signal.toNat]? ≠ some (some vec))
+    (hbb : E = .blockingBegin j →
+      ∀ st vec, m.states[r.currentState]? = some st → st.transitions[Event.blockingBegin.toNat]? ≠ some (some vec)) :
+    (triggerEvents ρ [E] t s).rt[mi]? = some { r with zeroedA := false, zeroedB := false } ∧
+    (triggerEvents ρ [E] t s).actions[mi]? = (s.actions[mi]?).map (fun _ => none) ∧
+    (triggerEvents ρ [E] t s).machines[mi]? = some m ∧
+    ∃ l, (triggerEvents ρ [E] t s).log = l ++ s.log ∧ ∀ st', LogEntry.trans mi Event.limitReached.toNat st' ∉ l := by
+  unfold triggerEvents
+  simp only [List.foldl]
+  have hr0 := callStart_rt s t mi r hr
+  have hs0 : InState mi m r.currentState (s.callStart t) := ⟨hm, _, hr0, rfl⟩
+  have h1 := processEvent_other_quiet ρ mi j hj m r.currentState E hE hbb _ hs0
+  have h2 := h1.trans (signalRound_quiet ρ mi m r.currentState hns _ (hs0.same h1))
+  refine ⟨by rw [h2.rt, hr0], ?_, by rw [h2.m]; exact hm, ?_⟩
+  · rw [h2.act]; simp only [Fw.callStart, List.getElem?_map]
+  · obtain ⟨l, hl⟩ := h2.ext
+    exact ⟨l, hl, noLR_of_le (s := s.callStart t) hl h2.lr⟩
+
 end Mb
